@@ -51,6 +51,11 @@ func tokenLess(t1, t2 *token.Token) bool {
 
 	switch t1.Type {
 	case token.ALIAS_PARAMETER:
+		// parameters whose type could not be resolved have no type (the error was already reported)
+		if t1.AliasInfo == nil || t2.AliasInfo == nil || t1.AliasInfo.Type == nil || t2.AliasInfo.Type == nil {
+			return false
+		}
+
 		if t1.AliasInfo.IsReference != t2.AliasInfo.IsReference {
 			return boolToInt(t1.AliasInfo.IsReference) < boolToInt(t2.AliasInfo.IsReference)
 		}
